@@ -289,6 +289,14 @@ func (c *Chain) InitGenesis(g Genesis) (err error) {
 		if err := c.BK.MintCoins(ctx, minttypes.ModuleName, b.Coins); err != nil {
 			return err
 		}
+		if b.Addr.Equals(FeePoolAddr()) {
+			// the fee pool is a module account (a blocked recipient for account transfers): a balance it holds at
+			// genesis arrives module to module
+			if err := c.BK.SendCoinsFromModuleToModule(ctx, minttypes.ModuleName, marketplace.FeePoolName, b.Coins); err != nil {
+				return err
+			}
+			continue
+		}
 		if err := c.BK.SendCoinsFromModuleToAccount(ctx, minttypes.ModuleName, b.Addr, b.Coins); err != nil {
 			return err
 		}
